@@ -421,11 +421,16 @@ def convert(case):
     tola = 1e-12 * amax * 4
     # alternative basis / plotting axis
     if case['alt']:
-        u = v_add(o.a1v3, o.a2v3)
-        w = list(o.a2v3)
+        # alt 1: both basis vectors given; alt 2 / 3: only a1vect / only a2vect given, the other one is the object's own
+        u = list(o.a1v3) if case['alt'] == 3 else v_add(o.a1v3, o.a2v3)
+        w = v_add(o.a1v3, o.a2v3) if case['alt'] == 3 else list(o.a2v3)
         U, W = crystal_to_cart(u, o.vects), crystal_to_cart(w, o.vects)
         xv = list(o.A2)
         kwb = dict(a1vect=np.array(u), a2vect=np.array(w))
+        if case['alt'] == 2:
+            del kwb['a2vect']
+        elif case['alt'] == 3:
+            del kwb['a1vect']
         kwx = dict(xvect=np.array(xv))
         xhat = v_unit(xv)
     else:
@@ -1332,7 +1337,7 @@ def gen():
                                     yield 'model', dict(c, fmt=fmt, units=un)
     # conversions
     for gi in range(ngeom):
-        for alt in (0, 1):
+        for alt in (0, 1, 2, 3):
             for n in NPOS:
                 for form in (['single', 'array', 'list'] if n == 1 else ['array', 'list']):
                     for start in (range(len(A12_MENU)) if THOROUGH else (0, 3)):
